@@ -1,0 +1,6 @@
+//go:build !verif
+
+package gohlslib
+
+// verifPoint is a no-op unless the library is built with -tags verif (see verif_on.go).
+func verifPoint(string, ...int64) {}
